@@ -60,6 +60,8 @@ BRACKET_TEMPLATES = [
     ('[[:digit:]-a]', S(False, ('p', 'digit'), ('c', '-'), ('c', 'a'))),
     ('[\\]-a]', S(False, ('r', ']', 'a'))), ('[a\\-c]', S(False, ('c', 'a'), ('c', '-'), ('c', 'c'))),
     ('[a-\\-]', S(False)),   # reversed range a..-  : matches nothing
+    # every range reversed: nothing / (negated) any one character, whatever its code point
+    ('[z-a]', S(False)), ('[!z-a]', S(True)), ('[^9-0c-a]', S(True)), ('[9-0c-a]', S(False)),
     # a hyphen between a member and a POSIX class is a member itself; what follows the class is unaffected by it
     ('[z-[:digit:]!]', S(False, ('c', 'z'), ('c', '-'), ('p', 'digit'), ('c', '!'))),
     ('[z-[:digit:]a]', S(False, ('c', 'z'), ('c', '-'), ('p', 'digit'), ('c', 'a'))),
@@ -248,10 +250,10 @@ def run(ctx):
         if not ctx.mine(bi):
             continue
         for pre, post in (((), ()), ((('lit', 'x'),), ()), ((), (('star',),)), ((('grp', '@', ((('lit', 'x'),), ())),), (('lit', 'y'),))):
-            toks = pre + ((bset,) if bset[2] else (('set', False, (('r', 'b', 'a'),), '!'),)) + post
+            toks = pre + ((bset,) if bset[2] else (('set', bset[1], (('r', 'b', 'a'),), '!'),)) + post
             text = gen.ser(pre) + btext + gen.ser(post)
             for fnames in flagsets(bi):
-                names = ['a', 'b', 'c', 'd', 'e', 'f', 'z', '-', ']', '+', ',', '0', '5', '\\', 'A', 'C', '.', '^', '!', '/', 'a]', '/]', '[]', '[/]']
+                names = ['a', 'b', 'c', 'd', 'e', 'f', 'z', '-', ']', '+', ',', '0', '5', '\\', 'A', 'C', '.', '^', '!', '/', 'a]', '/]', '[]', '[/]', '\u0100', '\u2603', '\U0001f600', '\xff']
                 names = [gen.derive(ctx.rng_for('bt', bi), pre, 'x') + n + (gen.derive(ctx.rng_for('bt2', bi), post, 'xy') or '') for n in names] + ['x', 'xy', 'y']
                 with ctx.case(label=(text, fnames)):
                     check_pattern(ctx, toks, fnames, [n for n in names if n], api_sample=True, text=text)
